@@ -1,9 +1,11 @@
 package evsim
 
 import (
+	"bytes"
 	"encoding/hex"
 	"fmt"
 	"math/big"
+	"sort"
 	"strconv"
 	"strings"
 	"time"
@@ -183,6 +185,14 @@ func (w *World) ResolveAddr(s string) (common.Address, bool) {
 		return common.HexToAddress("0x00000000000000000000000000000000000dead1"), true
 	case strings.HasPrefix(s, "mod:"):
 		return common.BytesToAddress(authtypes.NewModuleAddress(s[4:])), true
+	case strings.HasPrefix(s, "pc:"):
+		i, _ := strconv.Atoi(s[3:])
+		metas := w.C.Node.App.CPCKeeper.GetAllCustomPrecompiledContractsMeta(w.ctx())
+		if len(metas) == 0 {
+			return common.Address{}, false
+		}
+		sort.Slice(metas, func(a, b int) bool { return bytes.Compare(metas[a].Address, metas[b].Address) < 0 })
+		return common.BytesToAddress(metas[i%len(metas)].Address), true
 	case strings.HasPrefix(s, "fresh"):
 		i, _ := strconv.Atoi(s[5:])
 		return NewWallet("fresh", i).Addr, true
